@@ -9,10 +9,12 @@ rm -rf "$D"; cp -r /repo "$D"
 if [[ "$P" == *.py ]]; then (cd "$D" && python3 "$P") || { echo "patch script failed"; rm -rf "$D"; exit 2; }
 else (cd "$D" && git apply "$P") || { echo "git apply failed"; rm -rf "$D"; exit 2; }; fi
 (cd "$D" && GOFLAGS=-mod=mod GOPROXY=off go build ./... ) || { echo "mutant does not build"; rm -rf "$D"; exit 2; }
+# private copies of the Lean package and work dir: regenerated constants of the mutant must not
+# leak into checks that run concurrently against /repo
+L=/tmp/lean-mut-$$; rm -rf "$L"; cp -r /verif/lean "$L"
 for c in "$@"; do
-  out=$(cd /verif && VERIF_REPO="$D" VERIF_BINTAG="mut-$c" ./check "$c" 2>&1 | grep -E "VIOLATION|KNOWN|ok \(|MACHINERY" | head -3 | tr '\n' ' ')
+  out=$(cd /verif && VERIF_REPO="$D" VERIF_LEAN="$L" VERIF_WORK="/tmp/work-mut-$$" VERIF_BINTAG="mut-$c" ./check "$c" 2>&1 | grep -E "VIOLATION|KNOWN|ok \(|MACHINERY" | head -3 | tr '\n' ' ')
   echo "$c: $out"
 done
-rm -rf "$D"
-(cd /verif/harness && sed -i 's#replace github.com/onflow/atree => .*#replace github.com/onflow/atree => /repo#' go.mod)
+rm -rf "$D" "$L" /tmp/work-mut-$$
 rm -rf /verif/harness/bin/mut-*
